@@ -81,6 +81,14 @@ Proof.
   reflexivity.
 Qed.
 
+(* A.T sends k to the world position of voxel start + k*step, for ANY triples and ANY k *)
+Lemma slicer_axis_world A t0 t1 t2 k0 k1 k2 : rows4 A ->
+  mat_vec (mat_mul A (T3 t0 t1 t2)) [k0; k1; k2; 1]
+  = mat_vec A [snth t0 k0; snth t1 k1; snth t2 k2; 1].
+Proof.
+  intros HA. rewrite mat_assoc4; [|assumption|apply T3_is44|reflexivity]. now rewrite T3_vec.
+Qed.
+
 (* canonical_slicers applied to its own output (check_slicing is called twice by __getitem__):
    C06's canon_plain with the weaker hypothesis ix_valid (any non-zero step) *)
 Lemma canon_plain5 : forall c pre sh acc, ix_valid sh c ->
